@@ -1,5 +1,7 @@
 import RichModel.Model.Cells
 import RichModel.Model.Segment
+import RichModel.Model.SegmentExtra
+import RichModel.Model.Lru
 import RichModel.Gen.CellWidths
 import RichModel.Drv.Proto
 /- Driver handlers for the cells / segment models (property C13 and everything built on it). -/
@@ -31,6 +33,33 @@ def encLines (ls : List (List Seg)) : String :=
 /-- cache histories: `cap` then the measured strings; answers the list of results. -/
 def cacheHistory (cap : Nat) (calls : List (List Char)) : List Nat :=
   cellLenHistory cw { cap := cap, items := [] } calls
+
+/-! LRUCache op sequences.  ops: tokens separated by `,`: `s:k:v` (`c[k] = v`), `g:k` (`c[k]`), `q:k` (`c.get(k)`),
+`c:k` (`k in c`), `l` (`len(c)`); keys / values are naturals.  Answer: outputs separated by `,` (`u` None, `v:n`,
+`E` KeyError, `b:0|1`, `n:k`), then `|`, then the final `items()` as `k:v` separated by `,`. -/
+def decOp (t : String) : Option (LruOp Nat Nat) :=
+  match t.splitOn ":" with
+  | ["s", k, v] => some (.setitem (decNat k) (decNat v))
+  | ["g", k] => some (.getitem (decNat k))
+  | ["q", k] => some (.get (decNat k))
+  | ["c", k] => some (.contains (decNat k))
+  | ["l"] => some .len
+  | _ => none
+
+def decOps (s : String) : Option (List (LruOp Nat Nat)) :=
+  if s.isEmpty then some [] else (s.splitOn ",").mapM decOp
+
+def encOut : LruOut Nat → String
+  | .unit => "u"
+  | .val v => "v:" ++ toString v
+  | .keyError => "E"
+  | .bool b => "b:" ++ encBool b
+  | .nat n => "n:" ++ toString n
+
+def encItems (l : List (Nat × Nat)) : String := ",".intercalate (l.map fun p => toString p.1 ++ ":" ++ toString p.2)
+
+def encRun (outs : List (LruOut Nat)) (items : List (Nat × Nat)) : String :=
+  ",".intercalate (outs.map encOut) ++ "|" ++ encItems items
 
 def handlers : List (String × (List String → String)) := [
   ("cw", fun a => match a with
@@ -86,6 +115,44 @@ def handlers : List (String × (List String → String)) := [
     | _ => "bad-args"),
   ("simplify", fun a => match a with
     | [l, mergeCtl] => encLine (simplify (decLine l) (decBool mergeCtl))
+    | _ => "bad-args"),
+  -- deepening round 4
+  ("cache_state", fun a => match a with   -- the cache content (keys oldest first, then values) after a `cell_len` history
+    | [cap, calls] =>
+      let c := (decStrList calls).foldl (fun c s => (cellLenC cw c s).2) { cap := decNat cap, items := [] }
+      encStrList (c.items.map (·.1)) ++ "#" ++ " ".intercalate (c.items.map fun p => toString p.2)
+    | _ => "bad-args"),
+  ("lru_ops", fun a => match a with       -- the LRUCache state machine itself
+    | [cap, ops] => match decOps ops with
+      | some l => let r := Lru.run { cap := (decInt cap).toNat, items := ([] : List (Nat × Nat)) } l
+                  encRun r.1 r.2.items
+      | none => "unmodelled"
+    | _ => "bad-args"),
+  ("lru_abs", fun a => match a with       -- the never-evicting plain map, observed through its `cap` most recent keys
+    | [cap, ops] => match decOps ops with
+      | some l =>
+        if (decInt cap).toNat = 0 then "unmodelled"   -- the refinement theorem is for capacity >= 1
+        else let r := amRun (decInt cap).toNat ([] : List (Nat × Nat)) l
+             encRun r.1 (viewL (decInt cap).toNat r.2)
+      | none => "unmodelled"
+    | _ => "bad-args"),
+  ("set_cell_size_i", fun a => match a with
+    | [s, n] => encStr (setCellSizeI cw (decStr s) (decInt n))
+    | _ => "bad-args"),
+  ("make_control", fun a => match a with
+    | [l] => encLine (makeControl (decLine l))
+    | _ => "bad-args"),
+  ("seg_control", fun a => match a with
+    | [t, st] => encSeg (Segment.mkControl (decStr t) (decOptNat st))
+    | _ => "bad-args"),
+  ("seg_line", fun a => match a with
+    | [b] => encSeg (Segment.newLine (decBool b))
+    | _ => "bad-args"),
+  ("seg_bool_len", fun a => match a with   -- `bool(segment)` and `segment.cell_length`
+    | [sg] => let x := decSeg sg; encBool x.truthy ++ " " ++ toString (x.cellLength cw)
+    | _ => "bad-args"),
+  ("line_length", fun a => match a with    -- `Segment.get_line_length`
+    | [l] => toString (lineLength cw (decLine l))
     | _ => "bad-args")
 ]
 
